@@ -29,6 +29,7 @@ ASSUMPTIONS = [
     "sequential consistency at the granularity of attribute loads/stores of the channel (GIL); code between two labelled operations of the scheduler harness is thread-local (re-checked by the shape audit for the modelled attributes)",
     "the environment (client, kernel, task) is over-approximated: total_outbufs_len is read as an arbitrary value, select may report whatever was asked for, a flush may fail at any time, a task may end with either verdict",
     "ServiceStart is the entry of HTTPChannel.service(); a request whose service() was entered before the decision is 'in progress', not 'buffered behind'",
+    "when a close decision is DUE for a response is taken from the wire (harness/chanclose.py response_due: head incomplete, Connection: close announced, Content-Length not met, chunked body not terminated, close-delimited); the monitor treats that point as a decision of the specification, whatever the task's own verdict was",
     "which socket errors are a close decision is part of the specification (harness/chanclose.py: EWOULDBLOCK none; the six silent-disconnect errnos of wasyncore._DISCONNECTED close on the I/O thread and are swallowed on a worker; every other errno sets will_close on the flushing thread), audited against the source and enforced on every injected errno (K-errno)",
 ]
 
@@ -116,14 +117,19 @@ def run(ctx):
     mon_ok = [True]
     msg_kinds = {}
 
+    oracle_due = {}
+
     def account(sc, w, verdict, pk, gran):
         stats["runs"] += 1
         stats[verdict] = stats.get(verdict, 0) + 1
         policies[pk + "/" + gran] = policies.get(pk + "/" + gran, 0) + 1
-        labs = H.labels_of(w.sched.events)
+        labs = H.labels_of(w.sched.events, oracle=True)
         for l in labs:
             if l.startswith("dec:"):
                 decisions[l[4:]] = decisions.get(l[4:], 0) + 1
+        for why in H.oracle_points(w.sched.events).values():
+            why = why.split(",")[0][:48]
+            oracle_due[why] = oracle_due.get(why, 0) + 1
         if any(l.startswith("dec:") for l in labs) and any(l.startswith("start:") for l in labs):
             nontrivial.add(hashlib.sha1((json.dumps(sc, sort_keys=True) + "|" + ",".join(labs)).encode()).hexdigest())
         return labs
@@ -137,16 +143,20 @@ def run(ctx):
         if not okp:
             mon_ok[0] = False
             rep["observed"] = infop
-            ctx.report("monitor:" + ",".join(sorted(set(infop["decisions_before_start"]))),
-                       "application called by a service() entered after close decision(s) %s" % infop["decisions_before_start"],
-                       rep)
+            what = "application called by a service() entered after close decision(s) %s" % infop["decisions_before_start"]
+            if set(infop["decisions_before_start"]) == {"oracle_undelimited"}:
+                what = ("application called by a service() entered after a response that was not delimited as announced "
+                        "(wire oracle: %s) and NO close decision was taken" % sorted(set(H.oracle_points(w.sched.events).values())))
+            ctx.report("monitor:" + ",".join(sorted(set(infop["decisions_before_start"]))), what, rep)
         return okp, okf
 
     def check_extracted_monitor(all_labs):
         """the extracted monitor must agree with the Python one"""
         lines = []
         for labs in all_labs:
-            ls = " ".join(labs) if labs else ""
+            # the oracle's decision label is a decision like any other for the monitor; the driver's
+            # label syntax only knows the model's kinds
+            ls = " ".join("dec:worker_close" if l == "dec:oracle_undelimited" else l for l in labs) if labs else ""
             lines.append("monitor partial " + ls)
             lines.append("monitor full " + ls)
         ans = runner.query(lines)
@@ -172,7 +182,7 @@ def run(ctx):
         if probs:
             errno_ok[0] = False
             p = probs[0]
-            labs = H.labels_of(w.sched.events)
+            labs = H.labels_of(w.sched.events, oracle=True)
             ctx.report("errno:%s:%s:%s" % (p["call"], "io" if p["thread"] == "io" else "worker", p["errno_name"]),
                        "%s failing with %s on %s: expected close decision(s) %s, observed %s" % (
                            p["call"], p["errno_name"], p["thread"], p["expected_decisions"], p["observed_decisions"]),
@@ -271,10 +281,23 @@ def run(ctx):
             check_monitor(sc, w, labs, "default", "locks")
             check_errno(sc, w, "locks")
 
+    # 1c. the task's verdict: every way the application fails x log_socket_errors x where the next request is
+    for kind in H.FAILING_KINDS:
+        for lse in (True, False):
+            for follow in ({"cuts": []}, {"cuts": ["boundaries"], "wait_wire": 1, "lookahead": 1}):
+                sc = {"msgs": [kind, "get"], "lookahead": 0, "workers": 1,
+                      "adj": {"log_socket_errors": lse, "expose_tracebacks": kind == "ose_pre" and not lse}}
+                sc.update(follow)
+                w, v = run_one(sc, granularity="locks")
+                labs = account(sc, w, v, "default", "locks")
+                check_monitor(sc, w, labs, "default", "locks")
+                check_errno(sc, w, "locks")
+
     # 2. K-chan + monitor on generated scenarios, attribute granularity
     n_attr = 3500 if thorough else 430
     for n in range(n_attr):
-        sc = H.gen_race_scenario(rng) if rng.random() < 0.35 else H.gen_scenario(rng)
+        r = rng.random()
+        sc = H.gen_race_scenario(rng) if r < 0.3 else (H.gen_appfail_scenario(rng) if r < 0.5 else H.gen_scenario(rng))
         for k in sc["msgs"]:
             msg_kinds[k] = msg_kinds.get(k, 0) + 1
         pk = rng.choice(["default", "random", "random", "pct1", "pct2", "pct3"])
@@ -291,7 +314,8 @@ def run(ctx):
     # 3. monitor on generated scenarios, lock granularity (coarser steps, more schedules)
     n_lock = 7000 if thorough else 600
     for n in range(n_lock):
-        sc = H.gen_race_scenario(rng) if rng.random() < 0.35 else H.gen_scenario(rng)
+        r = rng.random()
+        sc = H.gen_race_scenario(rng) if r < 0.3 else (H.gen_appfail_scenario(rng) if r < 0.5 else H.gen_scenario(rng))
         pk = rng.choice(["random", "random", "pct1", "pct2", "pct3"])
         w, v = run_one(sc, policy=H.make_policy(rng, pk, est=60), granularity="locks")
         labs = account(sc, w, v, pk, "locks")
@@ -334,6 +358,7 @@ def run(ctx):
         "decision_kinds_observed": decisions,
         "model_choice_kinds_exercised": tokens,
         "message_kinds": msg_kinds,
+        "wire_oracle_close_due": oracle_due,
         "socket_errors_injected_by_call_thread_class": errno_seen,
         "distinct_errnos_injected": len(errno_names),
         "errnos_injected": sorted(H.errno_name(e) for e in errno_names),
@@ -350,7 +375,7 @@ def replay(data):
     sc = data["scenario"]
     gran = data.get("granularity", "locks")
     w, v = run_one(sc, schedule=data.get("choices", ()), granularity=gran)
-    labs = H.labels_of(w.sched.events)
+    labs = H.labels_of(w.sched.events, oracle=True)
     if data.get("kind") == "conformance":
         path, log = vcommon.build_runner("chanclose", "ExtChanclose.v")
         if path is None:
